@@ -1134,7 +1134,13 @@ impl<'a, I, A> Strategies<'a, I, A> {
                 for (left_val, right_val) in left.iter().zip(right.iter()) {
                     dist += (left_val - right_val).abs().powf(p);
                 }
-                dist / info.len() as f64
+                // the differences of two distributions sum to at most two, and a player without
+                // any infosets has only one strategy
+                if info.is_empty() {
+                    0.0
+                } else {
+                    dist / (2.0 * info.len() as f64)
+                }
             })
             .collect();
         dists.try_into().unwrap()
